@@ -416,7 +416,7 @@ class BinTableNumpy(AbstractBinTable):
 
         data_slice = self.data
         if rows is not None:
-            data_slice = data_slice[rows]
+            data_slice = data_slice[rows, :]
         if columns is not None:
             data_slice = data_slice[:, columns]
 
@@ -431,7 +431,7 @@ class BinTableNumpy(AbstractBinTable):
 
         data_slice = self.data
         if rows is not None:
-            data_slice = data_slice[rows]
+            data_slice = data_slice[rows, :]
         if columns is not None:
             data_slice = data_slice[:, columns]
 
@@ -446,7 +446,7 @@ class BinTableNumpy(AbstractBinTable):
 
         data_slice = self.data
         if rows is not None:
-            data_slice = data_slice[rows]
+            data_slice = data_slice[rows, :]
         if columns is not None:
             data_slice = data_slice[:, columns]
 
